@@ -3,6 +3,8 @@ import json, sys
 pid = sys.argv[1]
 wt = sys.argv[2]
 out = sys.argv[3]
+focus = sys.argv[4] if len(sys.argv) > 4 else ""
+focus_txt = ("\n\nFor this round, aim BOTH changes at this part of the property (other parts have been studied already): " + focus + "\n") if focus else ""
 for l in open('/verif/properties.jsonl'):
     p = json.loads(l)
     if p['id'] == pid:
@@ -16,7 +18,7 @@ Here is a semantic property of the library that is supposed to hold for ALL inpu
   statement: {p['statement']}
   quantified over: {p['quantifier']['text']}
   code it is anchored in: {', '.join(p['anchors']['files'])}
-
+{focus_txt}
 Your task: produce TWO independent source changes ("mutant A" and "mutant B", different mechanisms, ideally in different functions/files) to the library code under {wt}/palette (or palette_derive) such that each one, applied alone:
   1. still compiles (whole workspace),
   2. still passes the complete existing test suite unchanged:  cd {wt} && CARGO_NET_OFFLINE=true cargo test --workspace --no-fail-fast --offline   (all tests must pass; do not edit, delete or ignore existing tests),
